@@ -12,6 +12,16 @@ CHECKS = {
     technique="SMT translation validation: real simplify() run on generated sums, input/output encoded as polynomials over symbolic tensor entries in a finite orbital model, z3 decides value equality for all entries and target assignments; sat models replayed exactly",
     text="Each run of the real simplify() on a generated sum is validated by z3: value(out)=value(in) for every tensor valuation with the declared symmetries and every target assignment of a 3o3v/2o2v (spin: 2o2v x ab) model; term count, targets, assumptions and merging of alpha-equivalent pairs are direct checks on the concrete output.",
     note="Bounded: expression shapes come from a seeded generator (<=9 terms, <=3 tensors/term, <=5 contracted, <=4 targets), orbital model <=3o3v. Trusted: sympy, z3, the IR reader and the harness' symmetry canonicalisation; sat models are replayed on the sympy trees before reporting."),
+ "C08": dict(
+    level=TV, design="2/C08", engine="tvsmt",
+    technique="CrossHair symbolic execution of order_substitutions / Container.permute (regenerated from source) / get_lowest_avail_indices / split_idx_string over all small map shapes + z3 translation validation of substitute_contracted, substitute_with_generic, permute, ordered subs on generated terms",
+    text="CrossHair confirms, over all index maps with <=3 entries on 5 ids (thorough: 4 on 6) and all sequences of <=3 transpositions, that the ordered substitution list equals the simultaneous map and that permute composes transpositions; z3 validates value preservation of each renaming run; lowest-name / freshness / identity conjuncts are direct comparisons.",
+    note="Bounded map sizes and id ranges (stated in evidence); CrossHair stubs: indices as ints, `is`->`==`, temporary index = fresh negative int. Registry history limited to the checking process (histories: C19)."),
+ "C09": dict(
+    level=TV, design="2/C09", engine="tvsmt",
+    technique="SMT translation validation of evaluate_deltas in a typed orbital model (index range = its space and spin): z3 decides value equality for all tensor entries and target assignments, which implies no information-losing replacement",
+    text="Each run of the real evaluate_deltas on generated delta chains/stars (occ/virt/general, spin labelled or not, explicit or Einstein targets) is validated by z3 in typed models up to 3o2v / 2o1v x spin.",
+    note="Bounded generator (1-3 tensors, 1-4 deltas, <=4 contracted); the property's precondition (each contracted index on a non-delta object) is enforced by the generator; sat models replayed exactly."),
 }
 NA_REASON = "check not built yet in this round (planned, see DESIGN.md section 2)"
 
